@@ -184,6 +184,10 @@ Ltac vanish x c :=
   rewrite ?(ylos_below x (c - 3 / 2)), ?(ylos_below x (c - 1 / 2)), ?(ylos_below x (c + 1 / 2)),
           ?(ylos_below x (c + 3 / 2)) by lra.
 
+Ltac gen_atoms :=
+  repeat match goal with |- context [Lh ?a ?b] => generalize (Lh a b); intro end;
+  repeat match goal with |- context [ylos ?a ?b] => generalize (ylos a b); intro end.
+
 Lemma three_point_entry (cols i j : Z) : (1 <= i < cols)%Z -> (0 <= j < cols)%Z ->
   three_point_D cols i j = InvAbel (dpar (IZR j)) (IZR j + 3 / 2) (IZR i).
 Proof.
@@ -197,21 +201,26 @@ Proof.
       [|destruct (Z.eq_dec j i) as [C|C]; [|destruct (Z.eq_dec j (i - 1)) as [E|E]]]].
   - (* j >= i+2 *)
     zconds; z2r.
-    all: tp_rw (IZR i); canon (IZR j); field; apply PI_neq0.
+    all: tp_rw (IZR i); canon (IZR j).
+    all: gen_atoms. all: field. all: apply PI_neq0.
   - (* j = i+1 *)
     assert (Ec : IZR j = IZR i + 1) by (rewrite B, plus_IZR; reflexivity).
     zconds; z2r.
-    all: tp_rw (IZR i); canon (IZR j); vanish (IZR i) (IZR j); field; apply PI_neq0.
+    all: tp_rw (IZR i); canon (IZR j); vanish (IZR i) (IZR j).
+    all: gen_atoms. all: field. all: apply PI_neq0.
   - (* j = i *)
     assert (Ec : IZR j = IZR i) by (rewrite C; reflexivity).
     zconds; z2r.
-    all: tp_rw (IZR i); canon (IZR j); vanish (IZR i) (IZR j); field; apply PI_neq0.
+    all: tp_rw (IZR i); canon (IZR j); vanish (IZR i) (IZR j).
+    all: gen_atoms. all: field. all: apply PI_neq0.
   - (* j = i-1 *)
     assert (Ec : IZR j = IZR i - 1) by (rewrite E, minus_IZR; reflexivity).
     zconds; z2r.
-    all: tp_rw (IZR i); canon (IZR j); vanish (IZR i) (IZR j); field; apply PI_neq0.
+    all: tp_rw (IZR i); canon (IZR j); vanish (IZR i) (IZR j).
+    all: gen_atoms. all: field. all: apply PI_neq0.
   - (* j <= i-2 *)
     assert (Ec : IZR j <= IZR i - 2) by (rewrite <- minus_IZR; apply IZR_le; lia).
     zconds; z2r.
-    all: vanish (IZR i) (IZR j); field; apply PI_neq0.
+    all: vanish (IZR i) (IZR j).
+    all: gen_atoms. all: field. all: apply PI_neq0.
 Qed.
